@@ -89,18 +89,18 @@ def judge(calls, allowed_read, baseline):
                 if path in ("/dev/null", "/dev/tty"):
                     continue
                 bad.append((call, path, "opens for writing"))
-            elif path is not None and path not in baseline and path not in allowed_read and not path.startswith(TZ_OK) and not path.startswith("/proc/self") and " = -1 ENOENT" not in rest.replace(")", " ") + " ":
-                if rest.rstrip().endswith("ENOENT (No such file or directory)"):
-                    # an attempt to read a path that was not named is a violation too, unless it belongs to the start-up or the time-zone look-up
-                    bad.append((call, path, "looks for a file that was not named"))
-                else:
-                    bad.append((call, path, "reads a file that was not named"))
+            else:
+                np = os.path.normpath(path) if path else path
+                if path is None or path in baseline or np in allowed_read or path in allowed_read or np.startswith(TZ_OK) or np.startswith("/proc/self"):
+                    continue
+                failed = "= -1 E" in rest
+                bad.append((call, path, "looks for a file that was not named" if failed else "reads a file that was not named"))
         else:
             bad.append((call, path, "changes the file system"))
     return bad
 
 
-POOL = ["/etc/passwd", "/etc/hostname", "@CANARY", "@CWD/new-file", "../../../etc/shadow", "~/.ssh/id_rsa", "file:///etc/passwd", "http://127.0.0.1:1/x", "https://example.invalid/", "tcp://127.0.0.1:9",
+POOL = ["/etc/passwd", "/etc/hostname", "@CANARY", "@SECRET", "2020-01-01 ../../../../etc/hostname", "%Y-%m-%d %Q", "%:Q", "../../../..@SECRET", "@CWD/new-file", "../../../etc/shadow", "~/.ssh/id_rsa", "file:///etc/passwd", "http://127.0.0.1:1/x", "https://example.invalid/", "tcp://127.0.0.1:9",
         "$(touch @CANARY)", "`touch @CANARY`", "| touch @CANARY", "; touch @CANARY", "touch @CANARY", "/bin/sh", "sh -c 'echo x > @CANARY'", "@CANARY\u0000x", "//server/share/x", "C:\\Windows\\x",
         "/dev/tcp/127.0.0.1/9", "/proc/self/environ", "/dev/zero", "%s%n", "{\"search\": \"/etc\"}", "import \"/etc/passwd\" as $x; .", "include \"@CANARY\";", "Europe/Vienna", "/usr/share/zoneinfo/../../../etc/passwd", ""]
 
@@ -109,7 +109,8 @@ DOCS = [
     ("yaml", b"base: &b {path: /etc/passwd}\nx:\n  <<: *b\ny: *b\n"), ("yaml", b"a: &a [*a]\n"), ("yaml", b"%TAG ! tag:example.com,2000:app/\n--- !foo \"bar\"\n"), ("yaml", b"a: &x [1,2]\nb: [*x,*x,*x,*x]\nc: &y [*x,*x]\nd: [*y,*y,*y]\n"),
     ("yaml", b"!!java/object:java.lang.Runtime {}\n"), ("yaml", b"--- !ruby/object:Gem::Installer\ni: x\n"), ("yaml", b"? !!set {a, b}\n: !!omap [a: 1]\n"),
     ("xml", b"<?xml version=\"1.0\"?><!DOCTYPE a [<!ENTITY x SYSTEM \"file:///etc/passwd\">]><a>&x;</a>"), ("xml", b"<!DOCTYPE a [<!ENTITY % p SYSTEM \"http://127.0.0.1:1/evil.dtd\"> %p;]><a/>"),
-    ("xml", b"<!DOCTYPE a SYSTEM \"file://@CANARY\"><a/>"), ("xml", b"<!DOCTYPE a PUBLIC \"-//X//Y\" \"http://127.0.0.1:1/x.dtd\"><a/>"), ("xml", b"<a xmlns:xi=\"http://www.w3.org/2001/XInclude\"><xi:include href=\"file:///etc/passwd\" parse=\"text\"/></a>"),
+    ("xml", b"<!DOCTYPE a SYSTEM \"file://@CANARY\"><a/>"), ("xml", b"<!DOCTYPE a SYSTEM \"/etc/hostname\"><a/>"), ("xml", b"<!DOCTYPE a SYSTEM \"file:///etc/hostname\"><a>x</a>"),
+    ("xml", b"<!DOCTYPE a SYSTEM \"@SECRET\"><a/>"), ("xml", b"<?xml version=\"1.0\"?>\n<!DOCTYPE html SYSTEM \"@SECRET\">\n<html/>"), ("yaml", b"a: !!binary @SECRET\nb: !include @SECRET\n"), ("xml", b"<!DOCTYPE a PUBLIC \"-//X//Y\" \"http://127.0.0.1:1/x.dtd\"><a/>"), ("xml", b"<a xmlns:xi=\"http://www.w3.org/2001/XInclude\"><xi:include href=\"file:///etc/passwd\" parse=\"text\"/></a>"),
     ("xml", b"<?xml-stylesheet type=\"text/xsl\" href=\"file://@CANARY\"?><a/>"), ("xml", b"<!DOCTYPE l [<!ENTITY a \"aaaa\"><!ENTITY b \"&a;&a;&a;\"><!ENTITY c \"&b;&b;&b;\">]><l>&c;</l>"), ("xml", b"<a><?php system('touch @CANARY'); ?></a>"),
     ("xml", b"<a href=\"file:///etc/passwd\" src=\"http://127.0.0.1:1/\">@CANARY</a>"),
     ("cbor", bytes.fromhex("d820") + b"\x76" + b"http://127.0.0.1:1/x..."[:22]), ("cbor", bytes.fromhex("d818") + b"\x4c" + b"/etc/passwd\x00"), ("cbor", bytes.fromhex("d9d9f7a1") + b"\x64path\x6b/etc/passwd"),
@@ -131,10 +132,13 @@ def custom(ctx):
     os.makedirs(home)
     env = {"HOME": home}
 
+    secret = os.path.join(work, "secret.txt")
+    open(secret, "w").write("top secret\n")
+
     def subst(x):
         if isinstance(x, bytes):
-            return x.replace(b"@CANARY", canary.encode()).replace(b"@CWD", cwd.encode())
-        return x.replace("@CANARY", canary).replace("@CWD", cwd)
+            return x.replace(b"@CANARY", canary.encode()).replace(b"@CWD", cwd.encode()).replace(b"@SECRET", secret.encode())
+        return x.replace("@CANARY", canary).replace("@CWD", cwd).replace("@SECRET", secret)
 
     stats = {}
     viol = []
@@ -203,8 +207,10 @@ def custom(ctx):
     for argv, allowed in named:
         jobs.append(("named-files", argv, b"", allowed, " ".join(argv[1:])))
     # time-zone filters: only the time-zone database
-    for p in ["now | localtime | mktime", "0 | localtime | strftime(\"%c %Z\")", "now | strflocaltime(\"%Y %Z\")", "\"2015-03-05T23:51:47Z\" | strptime(\"%Y-%m-%dT%H:%M:%SZ\") | mktime", "now | todate | fromdate", "0 | gmtime | todate", "now | date"]:
-        jobs.append(("time-zone", [J, "-n", "-c", "try (%s) catch null" % p], b"", set(), p))
+    for p in ["now | localtime | mktime", "0 | localtime | strftime(\"%c %Z\")", "now | strflocaltime(\"%Y %Z\")", "\"2015-03-05T23:51:47Z\" | strptime(\"%Y-%m-%dT%H:%M:%SZ\") | mktime", "now | todate | fromdate", "0 | gmtime | todate", "now | date",
+              "\"2020-01-01 ../../../../etc/hostname\" | strptime(\"%Y-%m-%d %Q\")", "\"2020-01-01 ../../../..@SECRET\" | strptime(\"%Y-%m-%d %Q\")", "\"2020-01-01 Europe/Vienna\" | strptime(\"%Y-%m-%d %Q\")",
+              "\"2020-01-01 [../../../../etc/hostname]\" | strptime(\"%Y-%m-%d [%Q]\")", "\"12 @SECRET\" | strptime(\"%H %:Q\")", "0 | strftime(\"%Q\")", "0 | localtime | strftime(\"%Q %Z\")"]:
+        jobs.append(("time-zone", [J, "-n", "-c", "try (%s) catch null" % subst(p)], b"", set(), p))
 
     def one(job):
         label, argv, stdin, allowed, text = job
@@ -226,6 +232,22 @@ def custom(ctx):
             viol.append(dict(key="syscall:%s:%s" % (kind, call), what="%s: %s %s %r in: jaq %s" % (label, why, call, path, " ".join(argv[1:])[:500]),
                              case=dict(filter=text, kind="traced", argv=argv[1:], stdin=stdin.decode("latin-1")[:2000]), impl=None))
             break
+    # the documented exception --in-place: nothing but the named file changes, whatever lies next to it
+    for flt, okexp in [(".a", True), (".[] | if . == 3 then error else . end", False), ("., halt_error", False), ("1, 2, halt(3)", False), (".", True)]:
+        ipd = os.path.join(work, "ip")
+        shutil.rmtree(ipd, ignore_errors=True)
+        os.makedirs(ipd)
+        others = {"data.tmp": b"unrelated temporary\n", "data": b"no extension\n", "data.json.tmp": b"x", ".data.json": b"hidden", "data.json~": b"backup", "other.json": b"{\"a\": 2}"}
+        for n_, c_ in others.items():
+            open(os.path.join(ipd, n_), "wb").write(c_)
+        open(os.path.join(ipd, "data.json"), "w").write("{\"a\": [1, 2, 3, 4]}")
+        subprocess.run([J, "-i", "-c", flt, "data.json"], cwd=ipd, env=dict(os.environ, HOME=home), stdout=subprocess.PIPE, stderr=subprocess.PIPE, timeout=60)
+        now = {n_: open(os.path.join(ipd, n_), "rb").read() for n_ in os.listdir(ipd)}
+        changed = [n_ for n_ in set(now) | set(others) if n_ != "data.json" and now.get(n_) != others.get(n_)]
+        if changed or "data.json" not in now:
+            viol.append(dict(key="in-place-other-files", what="jaq -i %r data.json changed, created or removed other files: %s" % (flt, sorted(changed)), case=dict(filter=flt, kind="in-place"), impl=None))
+        else:
+            stats["in_place_frame_ok"] = stats.get("in_place_frame_ok", 0) + 1
     # canaries and the working directory
     if os.path.exists(canary):
         viol.append(dict(key="canary", what="the canary file %s was created by one of the traced runs" % canary, case=dict(filter="(all runs)", kind="canary"), impl=None))
